@@ -80,6 +80,13 @@ func main() {
 			np += len(m)
 		}
 		fmt.Printf("errdisp.json: %d functions, %d (function, callee) pairs\n", len(ed), np)
+		rf := props.RetFields(prog)
+		rb, _ := json.MarshalIndent(rf, "", " ")
+		if werr := os.WriteFile(filepath.Join(*verif, "retfields.json"), rb, 0o644); werr != nil {
+			fmt.Println(werr)
+			os.Exit(2)
+		}
+		fmt.Printf("retfields.json: %d accessors\n", len(rf))
 		lc := props.LockCover(prog)
 		lb, _ := json.MarshalIndent(lc, "", " ")
 		if werr := os.WriteFile(filepath.Join(*verif, "lockcover.json"), lb, 0o644); werr != nil {
